@@ -26,13 +26,17 @@ def work_init(init):
         obs.extractor(k)
 
 
-def build_members(seed: int, n: int, corrupt: int | None, with_noise: bool, prefix: str = "", dict_size: int | None = None):
+BLANK_EXTS = [".txt", ".csv", ".tsv", ".md", ".json"]      # extractors that accept empty input: an empty member is a visible member with an (empty) result
+
+
+def build_members(seed: int, n: int, corrupt: int | None, with_noise: bool, prefix: str = "", dict_size: int | None = None, blanks: str | None = None):
     """-> (members for archives.build, eligible list [(name, data)], corrupted member name or None)
 
     ``prefix``: every member name starts with it ("./" = what `tar -czf x.tgz .`, `zip -r x.zip .` and 7z with ./ arguments write; the
     "." directory itself comes first).  ``dict_size``: the 7z folder's LZMA / LZMA2 dictionary; members are added whose content repeats at a
     distance between 2/3 of it and all of it (within one member, and as a second copy of an earlier member), so that the packed stream
-    really contains matches that need the whole declared dictionary."""
+    really contains matches that need the whole declared dictionary.  ``blanks``: "empty" interleaves zero-length members of the plain-text
+    family (and directories next to them), "filled" is their control twin (the same members holding two bytes)."""
     from vlib.gen import docs, mutate
     rng = random.Random(f"c10:{seed}")
     members, eligible = [], []
@@ -52,6 +56,22 @@ def build_members(seed: int, n: int, corrupt: int | None, with_noise: bool, pref
         data = b"qr00005z " + blk + fill + blk + b" qr00006z\n"
         members.append({"name": f"{prefix}far-repeat.txt", "data": data, "type": "file"})
         eligible.append((f"{prefix}far-repeat.txt", data))
+    rb = random.Random(f"c10b:{seed}")
+
+    def blank(tag):
+        d = rb.choice(dirs)
+        nm = f"{prefix}{d}blank{tag}{rb.choice(BLANK_EXTS)}"
+        body = b"" if blanks == "empty" else b"0\n"
+        k = rb.random()
+        if k < 0.3:
+            members.append({"name": f"{prefix}{d}bdir{tag}", "type": "dir"})
+        members.append({"name": nm, "data": body, "type": "file"})
+        eligible.append((nm, body))
+        if k > 0.7:
+            members.append({"name": f"{prefix}{d}adir{tag}", "type": "dir"})
+
+    if blanks and rb.random() < 0.5:
+        blank("F")
     for i in range(n):
         fmt = rng.choice(MEMBER_FMTS)
         data, _ = docs.build(fmt, seed * 100 + i)
@@ -89,6 +109,8 @@ def build_members(seed: int, n: int, corrupt: int | None, with_noise: bool, pref
                 used.add(cname)
                 members.append({"name": cname, "data": cdata, "type": "file"})
                 eligible.append((cname, cdata))
+        if blanks and (rb.random() < 0.4 or (i == n - 1 and not any(nm.rsplit("/", 1)[-1].startswith("blank") for nm, _ in eligible))):
+            blank(i)
         if with_noise and rng.random() < 0.5:
             k = rng.random()
             if k < 0.25:
@@ -113,17 +135,21 @@ def _canon(j):
 def work(case):
     from vlib.worker import arm_cpu
     arm_cpu(120)
-    out = _run(case, case.get("prefix", ""), case.get("dict"))
-    if out["problems"] and (case.get("prefix") or case.get("dict")):
+    blanks = "empty" if case.get("blanks") else None
+    out = _run(case, case.get("prefix", ""), case.get("dict"), blanks)
+    if out["problems"] and blanks:
+        # control twin for the empty members alone: the same archive with two bytes in each of them
+        out["blank_twin_problems"] = sorted({p["sym"] for p in _run(case, case.get("prefix", ""), case.get("dict"), "filled")["problems"]})
+    if out["problems"] and (case.get("prefix") or case.get("dict")) and out.get("blank_twin_problems", True):
         # control twin: the same members under plain names in a folder with the writer's default dictionary
-        out["twin_problems"] = sorted({p["sym"] for p in _run(case, "", case.get("dict"), twin=True)["problems"]})
+        out["twin_problems"] = sorted({p["sym"] for p in _run(case, "", case.get("dict"), "filled" if blanks else None, twin=True)["problems"]})
     return out
 
 
-def _run(case, prefix, dict_size, twin=False):
+def _run(case, prefix, dict_size, blanks=None, twin=False):
     from vlib import obs
     from sharepoint2text.parsing import router
-    members, eligible, corrupted = build_members(case["seed"], case["n"], case.get("corrupt"), case.get("noise", True), prefix, dict_size)
+    members, eligible, corrupted = build_members(case["seed"], case["n"], case.get("corrupt"), case.get("noise", True), prefix, dict_size, blanks)
     layout = case["layout"]
     data = archives.build(layout, members, dict_size=None if twin else dict_size)
     apath = "dir/arch" + archives.ext_of(layout)
@@ -152,6 +178,11 @@ def _run(case, prefix, dict_size, twin=False):
         except Exception as e:
             gj.append(f"<to_json raised {type(e).__name__}>")
     # walk both lists in order
+    later_first, seen_first = {}, set()
+    for name, exp_js, _ in reversed(expected):       # first result of every later member, per member
+        later_first[name] = set(seen_first)
+        if exp_js:
+            seen_first.add(exp_js[0])
     gi = 0
     for name, exp_js, exp_exc in expected:
         is_corrupt = name == corrupted
@@ -181,6 +212,9 @@ def _run(case, prefix, dict_size, twin=False):
         # not at the expected position: is it elsewhere (order), or different (content), or missing?
         if all(j in gj for j in exp_js):
             out["problems"].append({"sym": "member-out-of-order", "detail": f"member {name!r} is returned, but not at its archive position"})
+        elif gi < len(gj) and gj[gi] in later_first.get(name, ()):
+            # what stands at its position is a later member's own result: this member is missing, the others are where they belong
+            out["problems"].append({"sym": "member-missing", "detail": f"member {name!r} produced no result (the next member's result follows directly)"})
         elif gi < len(gj):
             out["problems"].append({"sym": "member-content-differs-or-missing", "detail": f"member {name!r}: result at its position differs from extracting the member's bytes on its own"})
             gi += k
@@ -212,6 +246,8 @@ def gen_cases(run):
             corrupt = rng.randrange(n) if (n >= 2 and r % 2 == 1) else None
             cid += 1
             case = {"id": cid, "layout": layout, "seed": run.seed * 10000 + cid, "n": n, "corrupt": corrupt, "noise": r % 4 != 0}
+            if r % 4 == 1:
+                case["blanks"] = True           # zero-length members of the plain-text family, next to directories
             if r % 6 == 2:
                 case["prefix"] = "./"           # packed from inside the directory: "./"-prefixed member names
             if layout.startswith("7z") and "copy" not in layout and r % 3 != 0:
@@ -222,7 +258,7 @@ def gen_cases(run):
 
 
 def main(run):
-    run.rule = ("case = one archive (layout = container x compression / coder x folder layout x TAR header format pax|gnu|ustar, 0..10 generated member documents, directories / empty / hidden / unsupported / nested members interleaved, optionally one corrupted member); "
+    run.rule = ("case = one archive (layout = container x compression / coder x folder layout x TAR header format pax|gnu|ustar, 0..10 generated member documents, directories / empty (unsupported and plain-text) / hidden / unsupported / nested members interleaved, optionally one corrupted member); "
                 "distinct = (layout, #members, corrupted?, problem set); non-trivial = read_archive's ordered results were compared with stand-alone extraction of every eligible member")
     run.assumptions = ["the 7z writer is validated on solid layouts by the repository reader itself (self-test) and follows 7zFormat.txt for the others",
                        "a member that fails on its own is only required to be absent"]
@@ -249,6 +285,12 @@ def main(run):
             run.count(f"7z_archives_with_{dclass}_dictionary_and_far_matches")
         if case.get("prefix"):
             run.count("archives_with_dot-slash_prefixed_names")
+        if case.get("blanks"):
+            run.count(("7z" if case["layout"].startswith("7z") else "zip_stored" if case["layout"] == "zip-stored" else "other") + "_archives_with_empty_text_members")
+        if ob["problems"] and case.get("blanks") and ob.get("blank_twin_problems") == []:
+            feat = "empty-member"                       # the twin whose empty members hold two bytes is clean
+            if case["layout"].startswith("7z"):
+                lc = "7z"                               # one mechanism for every coder / folder layout
         twin_clean = not ob.get("twin_problems")         # the risky feature is only named when the control twin is judged clean
         if feat == "clean" and ob["problems"] and twin_clean and (dclass or case.get("prefix")):
             feat = "+".join(["clean"] + ([f"{dclass}-dictionary-far-matches"] if dclass else []) + (["dot-slash-prefixed-names"] if case.get("prefix") else []))
@@ -265,7 +307,8 @@ def main(run):
     for fmt in ("pax", "gnu", "ustar"):     # every TAR header format must have been read back uncompressed (detection by the tar magic) and compressed
         run.require(f"tar_{fmt}_uncompressed_archives", sum(n for l, n in per_layout.items() if archives.family(l) == "tar" and archives.tar_format(l) == fmt), 5)
         run.require(f"tar_{fmt}_compressed_archives", sum(n for l, n in per_layout.items() if archives.family(l).startswith("tar.") and archives.tar_format(l) == fmt), 15)
-    for k, lo in (("7z_archives_with_3x2^n_dictionary_and_far_matches", run.n(40, 400)), ("7z_archives_with_2^n_dictionary_and_far_matches", run.n(40, 400)),
+    for k, lo in (("7z_archives_with_empty_text_members", run.n(60, 600)), ("zip_stored_archives_with_empty_text_members", run.n(5, 50)), ("other_archives_with_empty_text_members", run.n(25, 250)),
+                  ("7z_archives_with_3x2^n_dictionary_and_far_matches", run.n(40, 400)), ("7z_archives_with_2^n_dictionary_and_far_matches", run.n(40, 400)),
                   ("archives_with_dot-slash_prefixed_names", run.n(60, 600))):
         run.require(k, run.counters.get(k, 0), lo)
     run.require("members_compared_with_standalone_extraction", compared, run.n(400, 8000))
